@@ -287,6 +287,14 @@ def _taint(ctx):
                                 xl = x_.get("cp") or x_.get("mv")
                                 if xl is not None and _copy_root(du, xl["l"]) == _copy_root(du, opl["l"]) and "c" in y_ and y_["c"].get("int") in (0, -1, 1):
                                     signed = True
+                    # the same test spelled as a method: `len.is_negative()` / `is_positive()` / `signum()`
+                    for c_, bbs_ in du.slice_operand(discr, deep=False).calls.items():
+                        if c_.rsplit("::", 1)[-1] in ("is_negative", "is_positive", "signum"):
+                            for cb_ in bbs_:
+                                ct_ = b.blocks[cb_].term
+                                xl = (ct_["args"][0].get("cp") or ct_["args"][0].get("mv")) if ct_.get("args") else None
+                                if xl is not None and _copy_root(du, xl["l"]) == _copy_root(du, opl["l"]):
+                                    signed = True
                 key = "signed-length-cast:%s" % root
                 if key in seen:
                     continue
